@@ -468,7 +468,15 @@ def r10_lookup_tables_complete(ctx, res):
         res.inst(key, v.loc(), f'{len(sources)} source loops')
         if len(ins) != 1:
             raise AnalysisError(f'anchor vanished: one executemany INSERT OR IGNORE INTO {table} in _update_lookup_tables')
-        m = _re.search(r'for _1 in sorted\(#(\d+)\)\]\)$', ins[0][1]) or _re.search(r'#(\d+)', ins[0][1])
+        m = _re.search(r'for _1 in sorted\(#(\d+)\)\]\)$', ins[0][1])
+        if not m:
+            # the row list may be bound to a local first: `rows = [(x,) for x in sorted(S)]; executemany(q, rows)`
+            m0 = _re.search(r', (#\d+)\)$', ins[0][1])
+            if m0:
+                fills = [r for r in v.rows if r[0] == 'call' and r[1].startswith(m0.group(1) + '.append(') and len(r[3]) == 1 and not r[2]]
+                if len(fills) == 1:
+                    m = _re.fullmatch(r'for sorted\(#(\d+)\)', fills[0][3][0])
+        m = m or _re.search(r'#(\d+)', ins[0][1])
         if not m or ins[0][2] or ins[0][3]:
             res.find(key, v.loc(ins[0][4]), f'the INSERT into {table} is conditional or no longer inserts the collected set')
             continue
